@@ -134,7 +134,7 @@ fn mutations<W: Wrapper>(ctx: &Ctx, rng: &mut Rng, x: &W) {
         let mut m2 = m.clone();
         let k = rng.pick(&keys).clone();
         let kname = k.atom_name().unwrap_or("?").to_string();
-        let kind = rng.below(6);
+        let kind = *rng.pick(&[0usize, 1, 2, 3, 4, 4, 4, 5]);
         let kind_name = ["remove-key", "wrong-type", "out-of-range-int", "negative-int", "big-int", "wrong-struct"][kind];
         match kind {
             0 => {
@@ -165,7 +165,18 @@ fn mutations<W: Wrapper>(ctx: &Ctx, rng: &mut Rng, x: &W) {
                 if !matches!(m.get(&k), Some(OwnedTerm::Integer(_))) {
                     continue;
                 }
-                m2.insert(k.clone(), OwnedTerm::BigInt(erltf::BigInt::new(false, vec![0, 0, 0, 0, 0, 0, 0, 0, 1])));
+                // big-integer representations around every width a field could be narrowed through: just outside
+                // i64 on both sides (eight digit bytes with the top bit set), 2^64 - k (wraps to -k in 64 bits,
+                // to small positive numbers in narrower fields), nine and more digits, and in-range values that
+                // merely arrive in big-integer form
+                let candidates: Vec<(bool, i128)> = vec![
+                    (false, 1i128 << 63), (false, (1i128 << 63) + 1), (false, (1i128 << 64) - 1), (false, (1i128 << 64) - 2025), (false, (1i128 << 64) - 3),
+                    (false, 1i128 << 64), (false, (1i128 << 64) + 12), (false, 1i128 << 100), (true, (1i128 << 63) + 1), (true, (1i128 << 64) - 1),
+                    (true, (1i128 << 64) - 7), (true, 1i128 << 63), (false, 5), (true, 5), (false, (1i128 << 32) + 3), (false, (1i128 << 40) - 1),
+                ];
+                let (neg, mag) = *rng.pick(&candidates);
+                let i = crate::refmodel::val::Int::from_i128(if neg { -mag } else { mag });
+                m2.insert(k.clone(), OwnedTerm::BigInt(erltf::BigInt::new(i.neg, i.mag.clone())));
             }
             _ => {
                 m2.insert(OwnedTerm::atom("__struct__"), OwnedTerm::atom("Elixir.SomethingElse"));
